@@ -33,7 +33,7 @@ contract(F + "Intrinsic_Function_Reference.match",
     ensures_local={
         # "exactly when name is a Fortran intrinsic that is not declared in the enclosing scopes visible at that point"
         "shadowed_name_is_not_intrinsic@ret6": "implies(table is not None, not visible(nonnull(table), function_name.lower()))",
-        "shadowed_name_is_not_intrinsic@ret9": "implies(table is not None, not visible(nonnull(table), function_name.lower()))",
+        "shadowed_name_is_not_intrinsic@ret3": "implies(table is not None, not visible(nonnull(table), function_name.lower()))",
         "name_checked_is_the_referenced_name@ret1": "table is not None and visible(nonnull(table), function_name.lower())",
     },
     raises={"InternalSyntaxError": {}, "*": {}},
